@@ -31,6 +31,7 @@ CONSTANTS
 (* named constant sets for configurations (a .cfg file cannot spell negative numbers) *)
 BasesZero  == {0}
 BasesMixed == {-1, 0, 2}
+BasesTwo   == {0, 2}
 BasesWide  == {-2, -1, 0, 1, 3}
 
 VARIABLES root, abs, impl, path
